@@ -206,6 +206,7 @@ ksyms!(
     win_cip_sse2 = "win_blake3_compress_in_place_sse2", win_cip_sse41 = "win_blake3_compress_in_place_sse41", win_cip_avx512 = "win_blake3_compress_in_place_avx512",
     win_cx_sse2 = "win_blake3_compress_xof_sse2", win_cx_sse41 = "win_blake3_compress_xof_sse41", win_cx_avx512 = "win_blake3_compress_xof_avx512",
     ca_d_hm = "ca_blake3_hash_many", ca_d_cip = "ca_blake3_compress_in_place", ca_d_cx = "ca_blake3_compress_xof", ca_d_xm = "ca_blake3_xof_many",
+    cn_hm_avx2 = "cn_blake3_hash_many_avx2",
     ci_d_hm = "ci_blake3_hash_many", ci_d_cip = "ci_blake3_compress_in_place", ci_d_cx = "ci_blake3_compress_xof", ci_d_xm = "ci_blake3_xof_many",
 );
 
@@ -291,11 +292,13 @@ pub fn table() -> Vec<KEntry> {
             v.push(KEntry { name: "rust_platform", addr: 0, kind, abi: Rust(lvl), degree: deg, need });
         }
     }
+    // appended last (plans name kernels by index): the AVX2 C kernel built with BLAKE3_NO_SSE41
+    v.push(e("cn_hash_many_avx2_no_sse41", cn_hm_avx2, HashMany, SysV, 8, 0x10));
     v
 }
 
 pub fn table_len() -> usize {
-    35 + 8 + 20
+    35 + 8 + 20 + 1
 }
 
 struct Sent {
